@@ -1800,9 +1800,10 @@ def create_pressure_controls(net, from_junctions, to_junctions, controlled_junct
                "type": type}
     _set_multiple_entries(net, "press_control", index, **entries, **kwargs)
 
-    controlled_elsewhere = (controlled_junctions != from_junctions) & (controlled_junctions != to_junctions)
+    controlled_elsewhere = (np.array(controlled_junctions) != np.array(from_junctions)) \
+        & (np.array(controlled_junctions) != np.array(to_junctions))
     if np.any(controlled_elsewhere):
-        controllers_warn = index[controlled_elsewhere]
+        controllers_warn = np.array(index)[controlled_elsewhere]
         logger.warning("The pressure controllers %s control the pressure at junctions that they are"
                        " not connected to. Please note that this can lead to errors in the pipeflow"
                        " calculation that will not be displayed properly. Make sure that your grid "
